@@ -79,7 +79,9 @@ func c05MultiBody() func(x *vs.Exec) {
 				}
 				evs = append(evs, ev{d.Start, 1}, ev{end, -1})
 			}
-			sort.Slice(evs, func(i, j int) bool { return evs[i].at < evs[j].at || (evs[i].at == evs[j].at && evs[i].delta < evs[j].delta) })
+			sort.Slice(evs, func(i, j int) bool {
+				return evs[i].at < evs[j].at || (evs[i].at == evs[j].at && evs[i].delta < evs[j].delta)
+			})
 			n := 0
 			for _, e := range evs {
 				n += e.delta
